@@ -64,7 +64,9 @@ def generate(rng, n_setups=None, n_leaves=None, same_names=True, subset_producer
         for vm in vms:
             r = rng.random()
             usable = sorted(g for g, (v, gvms) in producers.items() if v == vm and (not subset_producers or set(gvms) <= set(vms)))
-            if usable and r < 0.3:
+            # (at most one multi-producer dependency per test, as in the shipped suite: cloning over two objects at once is
+            # not something the parser claims to support - it ends in "Detected stateless dependency")
+            if usable and r < 0.3 and not any(d[2] is None for d in decl.values()):
                 grp = rng.choice(usable)
                 decl[vm] = ("images", grp, None)            # every state-setting variant of the group: dependant is cloned
                 lines += ["        get_images_%s = %s" % (vm, grp)]
